@@ -7,7 +7,10 @@ public/underscore names, absolute/relative/aliased/wildcard imports from earlier
 (definitions and import aliases) also come in every underscore *shape* (dunder ``__version__``-like
 names, neutral module hooks ``__getattr__``/``__dir__``, class-private style, sunder, ``_``, trailing
 underscore) and are spelled like the structural names of the package (the module itself, its
-ancestors, other modules); sub-modules are also fetched as ``from a.b import c``.
+ancestors, other modules); sub-modules are also fetched as ``from a.b import c``.  From-import
+statements carry several names, plain and renamed ones mixed, in every form (members, sub-modules by
+``from . import`` / ``from .. import`` / ``from a.b import``, sub-modules and members together), on one
+line, parenthesised, one name per line, or split into one statement per name.
 `__all__` is composed in every direction of the package tree that is importable at that point: from a
 descendant, a sibling, a module of another package and - in "late" modules nothing else imports - from
 the parent / grandparent package (`from .. import __all__ as n`, `import pkg` + `pkg.__all__`,
@@ -66,7 +69,12 @@ REQUIRED_COUNTERS = ["packages_compared", "modules_compared", "names_compared", 
                      "exports_composed_from_ancestor_itself_composed", "exports_composed_from_descendant",
                      "exports_composed_from_sibling_or_cousin", "exports_composition_chains",
                      "exports_composed_from_several_sources", "exports_compositions_star", "exports_compositions_augassign",
-                     "exports_compositions_imported_all_name", "exports_compositions_dotted_module"]
+                     "exports_compositions_imported_all_name", "exports_compositions_dotted_module",
+                     "multi_name_import_statements", "multi_name_imports_mixing_plain_and_renamed", "multi_line_import_statements",
+                     "multi_name_from_dots_imports", "multi_name_relative_imports", "multi_name_absolute_imports",
+                     "init_from_dot_imports_mixing_plain_and_renamed",
+                     "init_from_dot_imports_with_renamed_child_next_to_plain_names",
+                     "multi_name_imports_mixing_sub_modules_and_members"]
 EXHAUSTIVE = {"quick": False, "thorough": False}
 ASSUMPTIONS = ["import graphs are acyclic by construction (across the packages of a session too)",
                "a session never loads a package twice; when its last resolve_aliases() loaded packages itself, one more call settles the data (loader documentation)", "implicitly bound sub-modules (not bound by a statement of that module) are dropped on both sides"]
@@ -355,8 +363,47 @@ def wildcard_sources(files: dict) -> dict[str, list[str]]:
     return out
 
 
+def count_statement_shapes(rec, files: dict, ref: dict) -> None:  # noqa: ANN001
+    """Evidence for the shapes of from-import statements (several names, plain and renamed ones mixed, per import form)."""
+    import ast
+
+    for rel, src in files.items():
+        mod = rel[:-3].replace("/", ".").removesuffix(".__init__")
+        is_init = rel.endswith("__init__.py")
+        for node in ast.parse(src).body:
+            if not isinstance(node, ast.ImportFrom) or len(node.names) < 2:
+                continue
+            rec.count("multi_name_import_statements")
+            mixed = any(a.asname for a in node.names) and not all(a.asname for a in node.names)
+            if mixed:
+                rec.count("multi_name_imports_mixing_plain_and_renamed")
+            if (node.end_lineno or node.lineno) > node.lineno:
+                rec.count("multi_line_import_statements")
+            if node.level and not node.module:
+                rec.count("multi_name_from_dots_imports")
+                if node.level == 1 and is_init and mixed:
+                    rec.count("init_from_dot_imports_mixing_plain_and_renamed")
+                    if any(a.asname and f"{mod}.{a.name}" in ref["modules"] for a in node.names):
+                        rec.count("init_from_dot_imports_with_renamed_child_next_to_plain_names")
+            elif node.level:
+                rec.count("multi_name_relative_imports")
+            else:
+                rec.count("multi_name_absolute_imports")
+            base = None
+            if node.level:
+                parts = mod.split(".") if is_init else mod.split(".")[:-1]
+                parts = parts[: len(parts) - (node.level - 1)]
+                base = ".".join(parts + ([node.module] if node.module else []))
+            else:
+                base = node.module
+            kinds = {("sub-module" if f"{base}.{a.name}" in ref["modules"] else "member") for a in node.names}
+            if len(kinds) == 2:
+                rec.count("multi_name_imports_mixing_sub_modules_and_members")
+
+
 def count_input_classes(rec, files: dict, ref: dict) -> None:  # noqa: ANN001
     """Evidence that the underscore-shape classes really reach the wildcard rule (counted from what CPython reports)."""
+    count_statement_shapes(rec, files, ref)
     for mod, sources in wildcard_sources(files).items():
         for srcmod in sources:
             info = ref["modules"].get(srcmod)
